@@ -255,6 +255,10 @@ class Sim(object):
             return out
         worker_counts = list(cfg.get("worker_counts", [2, 7]))
         K = int(cfg.get("K", 3))
+        # cost bound: a region with very many scheduling points is explored under fewer schedules
+        budget = float(cfg.get("max_points_per_region", 2.5e6))
+        if est_steps > 0 and K > 2:
+            K = int(max(2, min(K, budget // max(1, est_steps))))
         policies = cfg.get("policies", ["random", "pct", "stall"])
         for j in range(K):
             W = worker_counts[j % len(worker_counts)] if j < len(worker_counts) else r.choice(worker_counts + [r.randint(3, 12)])
